@@ -15,8 +15,23 @@
 (* model checker and the trace specification use the same operators.       *)
 (* `dy` flags record whether every intermediate value of a stage is a      *)
 (* dyadic rational: then binary floating point computes it exactly.        *)
+(*                                                                         *)
+(* Graded matrices.  The matrix handed to the code may be D_r A D_c with   *)
+(* D_r = diag(2^rs[i]), D_c = diag(2^cs[j]) and A the small-integer matrix *)
+(* of the scenario.  Scaling by powers of two is exact in binary floating  *)
+(* point, and with the same pivot rows the elimination of D_r A D_c is the *)
+(* elimination of A entry by entry, times a power of two:                  *)
+(*    active part (i,j), j >= k :  2^(re[i] + cs[j])  (re = rs permuted by *)
+(*                                 the row exchanges done so far)          *)
+(*    multiplier (i,k), i > k   :  2^(re[i] - re[k])  (re after the        *)
+(*                                 exchange of stage k)                    *)
+(* So the model keeps the UNSCALED exact rationals plus the exponents `re` *)
+(* (current row exponents) and `lex` (exponents of the stored multipliers);*)
+(* the scaling enters only where the code compares magnitudes: the pivot   *)
+(* search (ScLt).  The solve needs no exponents: with the right-hand side  *)
+(* D_r b its result is D_c^-1 (A^-1 b).                                    *)
 (***************************************************************************)
-EXTENDS Integers, Sequences
+EXTENDS Integers, Sequences, TLC
 
 Abs(x) == IF x < 0 THEN -x ELSE x
 RECURSIVE GCD(_, _)
@@ -40,23 +55,50 @@ RECURSIVE IsPow2(_)
 IsPow2(d) == d = 1 \/ (d % 2 = 0 /\ IsPow2(d \div 2))
 Dyadic(x) == IsPow2(x[2])
 
+RECURSIVE Pow2(_)
+Pow2(e) == IF e = 0 THEN 1 ELSE 2 * Pow2(e - 1)
+\* x * 2^ex < y * 2^ey for rationals x, y >= 0.  TLC integers are 32-bit: an exponent difference of 20 or more is
+\* decided by its sign, which is right as long as the cross products stay below 2^20 (asserted; on the scenario
+\* domains they stay below 2^10); smaller differences are multiplied out.
+ScLt(x, ex, y, ey) ==
+  IF RIsZero(y) THEN FALSE
+  ELSE IF RIsZero(x) THEN TRUE
+  ELSE LET dd == ex - ey
+           p == x[1] * y[2]
+           q == y[1] * x[2]
+       IN IF dd = 0 THEN p < q
+          ELSE IF dd >= 20 THEN Assert(q < 1048576, <<"ScLt: cross product too large", x, y>>) /\ FALSE
+          ELSE IF dd <= -20 THEN Assert(p < 1048576, <<"ScLt: cross product too large", x, y>>)
+          ELSE IF dd > 0 THEN Assert(p < 2048, <<"ScLt: cross product too large", x, y>>) /\ p * Pow2(dd) < q
+          ELSE Assert(q < 2048, <<"ScLt: cross product too large", x, y>>) /\ p < q * Pow2(-dd)
+
 Get(a, i, j) == a[i + 1][j + 1]
+SwapAt(v, i, j) == [x \in 1..Len(v) |-> IF x = i THEN v[j] ELSE IF x = j THEN v[i] ELSE v[x]]     \* 1-based positions
+ZeroVec(n) == [i \in 1..n |-> 0]
+ZeroMat(n) == [i \in 1..n |-> [j \in 1..n |-> 0]]
 UNSET == -1                                        \* pivot slot never written
 RatMat(A) == [i \in 1..Len(A) |-> [j \in 1..Len(A) |-> RInt(A[i][j])]]
 AllDyadicVec(b) == \A i \in 1..Len(b) : Dyadic(b[i])
 
 (* ============================== real: lu_decomp ========================= *)
+\* magnitude of the entry in row i of column k as the code sees it: |a[i,k]| * 2^re[i]  (the column factor is common)
 \* pivot search: m = k; for i in k+1..n: if |a[i,k]| > |a[m,k]| then m = i   (strict: first maximum wins)
-RECURSIVE PivSearch(_, _, _, _, _)
-PivSearch(a, n, k, i, m) ==
+RECURSIVE PivSearch(_, _, _, _, _, _)
+PivSearch(a, re, n, k, i, m) ==
   IF i >= n THEN m
-  ELSE PivSearch(a, n, k, i + 1, IF RLt(RAbs(Get(a, m, k)), RAbs(Get(a, i, k))) THEN i ELSE m)
+  ELSE PivSearch(a, re, n, k, i + 1,
+                 IF ScLt(RAbs(Get(a, m, k)), re[m + 1], RAbs(Get(a, i, k)), re[i + 1]) THEN i ELSE m)
 
-\* one pass of the "for k in 0..n-1" loop body
-DecStage(a, n, k) ==
-  LET m == PivSearch(a, n, k, k + 1, k)
-      pivot == Get(a, m, k)
-  IN IF RIsZero(pivot) THEN [sing |-> TRUE, a |-> a, m |-> m, dy |-> TRUE]
+\* exponents after stage k with pivot row m: the row exponents are exchanged, the new multipliers get re[i] - re[k]
+StageRe(re, k, m) == SwapAt(re, m + 1, k + 1)
+StageLex(lex, re1, n, k) ==
+  [i1 \in 1..n |-> [j1 \in 1..n |-> IF j1 - 1 = k /\ i1 - 1 > k THEN re1[i1] - re1[k + 1] ELSE lex[i1][j1]]]
+
+\* one pass of the "for k in 0..n-1" loop body with pivot row m (the model takes m from PivSearch; the contract's guided
+\* elimination takes the row the implementation reported)
+DecStageAt(a, re, lex, n, k, m) ==
+  LET pivot == Get(a, m, k)
+  IN IF RIsZero(pivot) THEN [sing |-> TRUE, a |-> a, re |-> re, lex |-> lex, m |-> m, dy |-> TRUE]
      ELSE LET t == RInv(pivot)
               \* entry (i,j), j >= k, after exchanging rows m and k (the code swaps column k first, the others inside the j loop)
               Sw(i, j) == IF i = m THEN Get(a, k, j) ELSE IF i = k THEN Get(a, m, j) ELSE Get(a, i, j)
@@ -68,10 +110,15 @@ DecStage(a, n, k) ==
                            ELSE IF j = k THEN (IF i > k THEN Mult(i) ELSE Sw(i, k))
                            ELSE IF i > k THEN RAdd(Sw(i, j), RMul(Mult(i), Get(a, m, j)))   \* a[(i,j)] += a[(i,k)] * tj, tj = original a[(m,j)]
                            ELSE Sw(i, j)]]
-          IN [sing |-> FALSE, a |-> new, m |-> m, dy |-> Dyadic(t)]
+              re1 == StageRe(re, k, m)
+          IN [sing |-> FALSE, a |-> new, re |-> re1, lex |-> StageLex(lex, re1, n, k), m |-> m, dy |-> Dyadic(t)]
+DecStage(a, re, lex, n, k) == DecStageAt(a, re, lex, n, k, PivSearch(a, re, n, k, k + 1, k))
 
-\* result record of a (partial) decomposition
-DecInit(a, n) == [cls |-> "run", a |-> a, ip |-> [x \in 1..n |-> UNSET], k |-> 0, dy |-> TRUE]
+\* result record of a (partial) decomposition; rs: the row exponents of the scenario (zeros for an unscaled matrix)
+DecInit(a, n, rs) == [cls |-> "run", a |-> a, ip |-> [x \in 1..n |-> UNSET], k |-> 0, dy |-> TRUE,
+                      re |-> rs, lex |-> ZeroMat(n)]
+\* exponent of every entry of the (partial) factor d: value handed back by the code = d.a[i][j] * 2^FacExp[i][j]
+FacExp(d, cs, n) == [i \in 1..n |-> [j \in 1..n |-> IF i > j /\ j - 1 < d.k THEN d.lex[i][j] ELSE d.re[i] + cs[j]]]
 
 \* one step of lu_decomp from state d (cls = "run")
 DecStep(d, n) ==
@@ -79,15 +126,15 @@ DecStep(d, n) ==
   THEN IF RIsZero(Get(d.a, 0, 0)) THEN [d EXCEPT !.cls = "singular"]
        ELSE [d EXCEPT !.cls = "ok", !.ip = <<0>>]
   ELSE IF d.k < n - 1
-  THEN LET s == DecStage(d.a, n, d.k)
+  THEN LET s == DecStage(d.a, d.re, d.lex, n, d.k)
        IN IF s.sing THEN [d EXCEPT !.cls = "singular", !.ip[d.k + 1] = s.m]
-          ELSE [d EXCEPT !.a = s.a, !.ip[d.k + 1] = s.m, !.k = d.k + 1, !.dy = d.dy /\ s.dy]
+          ELSE [d EXCEPT !.a = s.a, !.re = s.re, !.lex = s.lex, !.ip[d.k + 1] = s.m, !.k = d.k + 1, !.dy = d.dy /\ s.dy]
   ELSE \* final diagonal test
        IF RIsZero(Get(d.a, n - 1, n - 1)) THEN [d EXCEPT !.cls = "singular"] ELSE [d EXCEPT !.cls = "ok"]
 
 RECURSIVE DecRun(_, _)
 DecRun(d, n) == IF d.cls # "run" THEN d ELSE DecRun(DecStep(d, n), n)
-Dec(A, n) == DecRun(DecInit(RatMat(A), n), n)
+Dec(A, n, rs) == DecRun(DecInit(RatMat(A), n, rs), n)
 
 (* ============================== real: lin_solve ========================= *)
 \* forward sweep for column k: swap b[ip[k]], b[k]; b[i] += a[(i,k)] * b[k] for i > k.   Reads ip[k] only for k < n-1.
@@ -122,7 +169,9 @@ SolRun(a, n, ip, s) == IF s.ph = "done" THEN s ELSE SolRun(a, n, ip, SolStep(a, 
 \* b: vector of integers
 Sol(a, n, ip, b) == SolRun(a, n, ip, SolInit([i \in 1..n |-> RInt(b[i])]))
 
-MultipliersLeOne(a, n) == \A i \in 0..n - 1 : \A k \in 0..n - 1 : i > k => RLeOne(Get(a, i, k))
+\* stored multipliers of the finished stages, as the code holds them: |l| * 2^lex <= 1
+MultipliersLeOne(d, n) ==
+  \A i \in 0..n - 1 : \A k \in 0..n - 1 : (i > k /\ k < d.k) => ~ScLt(<<1, 1>>, 0, RAbs(Get(d.a, i, k)), Get(d.lex, i, k))
 
 (* ============================== complex ================================= *)
 CZero == <<RZero, RZero>>
@@ -144,15 +193,15 @@ CModLeOne(z) == LET q == CDen(z) IN q[1] <= q[2]               \* re^2 + im^2 <=
 CMat(AR, AI) == [i \in 1..Len(AR) |-> [j \in 1..Len(AR) |-> CInt(AR[i][j], AI[i][j])]]
 AllCDyadicVec(b) == \A i \in 1..Len(b) : CDyadic(b[i])
 
-RECURSIVE CPivSearch(_, _, _, _, _)
-CPivSearch(a, n, k, i, m) ==
+RECURSIVE CPivSearch(_, _, _, _, _, _)
+CPivSearch(a, re, n, k, i, m) ==
   IF i >= n THEN m
-  ELSE CPivSearch(a, n, k, i + 1, IF RLt(CAbs1(Get(a, m, k)), CAbs1(Get(a, i, k))) THEN i ELSE m)
+  ELSE CPivSearch(a, re, n, k, i + 1,
+                  IF ScLt(CAbs1(Get(a, m, k)), re[m + 1], CAbs1(Get(a, i, k)), re[i + 1]) THEN i ELSE m)
 
-CDecStage(a, n, k) ==
-  LET m == CPivSearch(a, n, k, k + 1, k)
-      pivot == Get(a, m, k)
-  IN IF CIsZero(pivot) THEN [sing |-> TRUE, a |-> a, m |-> m, dy |-> TRUE]
+CDecStageAt(a, re, lex, n, k, m) ==
+  LET pivot == Get(a, m, k)
+  IN IF CIsZero(pivot) THEN [sing |-> TRUE, a |-> a, re |-> re, lex |-> lex, m |-> m, dy |-> TRUE]
      ELSE LET t == CRecip(pivot)
               Sw(i, j) == IF i = m THEN Get(a, k, j) ELSE IF i = k THEN Get(a, m, j) ELSE Get(a, i, j)
               Mult(i) == CNeg(CMul(Sw(i, k), t))                  \* (ar,ai)[(i,k)] = -( a[(i,k)] * t )
@@ -164,21 +213,24 @@ CDecStage(a, n, k) ==
                            ELSE IF j = k THEN (IF i > k THEN Mult(i) ELSE Sw(i, k))
                            ELSE IF i > k THEN CAdd(Sw(i, j), CMul(Mult(i), Get(a, m, j)))
                            ELSE Sw(i, j)]]
-          IN [sing |-> FALSE, a |-> new, m |-> m, dy |-> Dyadic(CDen(pivot)) /\ CDyadic(t)]
+              re1 == StageRe(re, k, m)
+          IN [sing |-> FALSE, a |-> new, re |-> re1, lex |-> StageLex(lex, re1, n, k), m |-> m,
+              dy |-> Dyadic(CDen(pivot)) /\ CDyadic(t)]
+CDecStage(a, re, lex, n, k) == CDecStageAt(a, re, lex, n, k, CPivSearch(a, re, n, k, k + 1, k))
 
 CDecStep(d, n) ==
   IF n = 1
   THEN IF CIsZero(Get(d.a, 0, 0)) THEN [d EXCEPT !.cls = "singular"]
        ELSE [d EXCEPT !.cls = "ok", !.ip = <<0>>]
   ELSE IF d.k < n - 1
-  THEN LET s == CDecStage(d.a, n, d.k)
+  THEN LET s == CDecStage(d.a, d.re, d.lex, n, d.k)
        IN IF s.sing THEN [d EXCEPT !.cls = "singular", !.ip[d.k + 1] = s.m]
-          ELSE [d EXCEPT !.a = s.a, !.ip[d.k + 1] = s.m, !.k = d.k + 1, !.dy = d.dy /\ s.dy]
+          ELSE [d EXCEPT !.a = s.a, !.re = s.re, !.lex = s.lex, !.ip[d.k + 1] = s.m, !.k = d.k + 1, !.dy = d.dy /\ s.dy]
   ELSE IF CIsZero(Get(d.a, n - 1, n - 1)) THEN [d EXCEPT !.cls = "singular"] ELSE [d EXCEPT !.cls = "ok"]
 
 RECURSIVE CDecRun(_, _)
 CDecRun(d, n) == IF d.cls # "run" THEN d ELSE CDecRun(CDecStep(d, n), n)
-CDec(AR, AI, n) == CDecRun(DecInit(CMat(AR, AI), n), n)
+CDec(AR, AI, n, rs) == CDecRun(DecInit(CMat(AR, AI), n, rs), n)
 
 CSolFwd(a, n, ip, b, k) ==
   LET m == ip[k + 1]
@@ -208,7 +260,10 @@ CSolRun(a, n, ip, s) == IF s.ph = "done" THEN s ELSE CSolRun(a, n, ip, CSolStep(
 \* b: vector of <<re, im>> integer pairs
 CSol(a, n, ip, b) == CSolRun(a, n, ip, SolInit([i \in 1..n |-> CInt(b[i][1], b[i][2])]))
 
-CMultipliersLeOne(a, n) == \A i \in 0..n - 1 : \A k \in 0..n - 1 : i > k => CModLeOne(Get(a, i, k))
+\* pivoting on |re|+|im| bounds the modulus of a multiplier by sqrt 2 (|z| <= |z|_1 <= sqrt 2 |z|): |l|^2 * 4^lex <= 2
+CMultipliersBounded(d, n) ==
+  \A i \in 0..n - 1 : \A k \in 0..n - 1 :
+     (i > k /\ k < d.k) => ~ScLt(<<2, 1>>, 0, CDen(Get(d.a, i, k)), 2 * Get(d.lex, i, k))
 
 (* ============================== argument checks ========================= *)
 \* lu_decomp: n != ncols -> NonSquareMatrix; ip.len() != n -> PivotSizeMismatch (in this order)
